@@ -124,10 +124,27 @@ func proposePL(r *gen.Rand, t *ref.VersionTraits, cur *ref.Value, creators []str
 				n = ref.O()
 				c.Set("notifications", n)
 			}
-			k := gen.Pick(r, []string{"room", "custom"})
-			if r.Chance(0.3) {
+			k := gen.Pick(r, []string{"room", "custom", "custom", "other"})
+			switch {
+			case r.Chance(0.25):
+				// one entry goes and another comes in the same event (a rename): as many entries as before
+				from, to := "custom", "other"
+				if n.Get(from) == nil {
+					from, to = to, from
+				}
+				if n.Get(from) == nil {
+					n.Set(to, lvl(r, t))
+					break
+				}
+				if r.Chance(0.5) {
+					n.Set(to, n.Get(from))
+				} else {
+					n.Set(to, lvl(r, t))
+				}
+				n.Del(from)
+			case r.Chance(0.3):
 				n.Del(k)
-			} else {
+			default:
 				n.Set(k, lvl(r, t))
 			}
 		case 8:
